@@ -223,6 +223,8 @@ def _root_keys(filter):
             for item in value:
                 for key in _root_keys(item):
                     yield key
+        elif key == "$not":
+            yield from _root_keys(value)
         elif "." in key:
             yield key.split(".", 1)[0]
         else:
